@@ -60,8 +60,10 @@ def run(idx, rep, tier):
     rep.stats["exhaustive"] = True
 
 
-def r1(idx, rep):
+def mode_value_tables(idx, rep, rid, classes=None):
     for cls, (attr, table) in MODE_TABLES.items():
+        if classes is not None and cls not in classes:
+            continue
         fu = idx.method(cls, "update")
         rep.analysed(fu, idx.method(cls, "value"))
         bad = None
@@ -82,7 +84,11 @@ def r1(idx, rep):
                 got = p.final_store.get("self." + attr)
                 if p.result[0] != "return" or got is not want:
                     bad = bad or f"{MODE_KEYS[cls]}: {mv!r} gives {got!r} ({p.result[0]}), docs/comments.md says {want!r}"
-        rep.check(bad is None, "R1", f"{fu.file}::{cls} value table", bad or f"{len(table)} values", K.where(fu, fu.node))
+        rep.check(bad is None, rid, f"{fu.file}::{cls} value table", bad or f"{len(table)} values", K.where(fu, fu.node))
+
+
+def r1(idx, rep):
+    mode_value_tables(idx, rep, "R1")
     # programmatic setters: setting a boolean and re-reading it from the metadata it writes gives the same boolean
     for cls in MODE_TABLES:
         attr = MODE_TABLES[cls][0]
@@ -241,6 +247,7 @@ def r6(idx, rep):
         if not ok:
             bad = bad or f"outer comment {c!r}: metadata {got!r} ({ps[0].result[0]}), documented {want!r}"
     rep.check(bad is None, "R6", f"{fc.file}::MetadataParser.collect_metadata corpus", bad or f"{len(COMMENTS) + len(COMMENTS_PARTIAL)} comments", K.where(fc, fc.node))
+    metadata_merge(idx, rep, "R6")
     bad = None
     for c, want in OUTER:
         it = Interp(idx, types={"self": "MetadataParser"}, unknown_calls="residual")
@@ -256,6 +263,23 @@ def r6(idx, rep):
     md = ps[0].final_store.get("inst.metadata") if len(ps) == 1 else None
     ok = len(ps) == 1 and ps[0].result == ("return", "$f[*][yes()]") and md and md.get("id") == "k" and md.get("return-mode") == "no-matches"
     rep.check(ok, "R6", f"{fx.file}::MetadataParser.extract_metadata end to end", f"{ps[0].result}, {md}", K.where(fx, fx.node))
+
+
+def metadata_merge(idx, rep, rid):
+    """metadata already on the instance (a mode a setter or a by-line run seeded, a key of an earlier parse): what the comment says wins,
+    what it does not mention stays"""
+    fc = idx.method("MetadataParser", "collect_metadata")
+    bad = None
+    cases = [({"return-mode": "matches", "other": "x"}, "return-mode: no-matches id: y", {"return-mode": "no-matches", "id": "y", "other": "x"}),
+             ({"logic-mode": "AND"}, "logic-mode: OR", {"logic-mode": "OR"}),
+             (None, "id: y", {"id": "y"})]
+    for pre, c, want in cases:
+        it = Interp(idx, types={"self": "MetadataParser"}, unknown_calls="residual")
+        ps = it.run_all(fc, args={"instance": Obj("inst"), "comment": c}, store={"inst.metadata": None if pre is None else dict(pre)})
+        got = ps[0].final_store.get("inst.metadata") if len(ps) == 1 else None
+        if len(ps) != 1 or ps[0].result[0] != "return" or got != want:
+            bad = bad or f"metadata {pre!r} before, outer comment {c!r}: metadata {got!r} afterwards, documented {want!r} (a mode written in the comment takes effect whatever was set before)"
+    rep.check(bad is None, rid, f"{fc.file}::MetadataParser.collect_metadata over existing metadata", bad or f"{len(cases)} cases", K.where(fc, fc.node))
 
 
 def r7(idx, rep):
